@@ -177,6 +177,12 @@ def _prepare_tree():
 def _shard_entry(args):
     modname, desc, seed, prop, known, tier = args
     try:
+        try:      # die with the runner (Linux): no orphaned worker may keep pipes or sockets open
+            import ctypes
+            import signal
+            ctypes.CDLL("libc.so.6", use_errno=True).prctl(1, signal.SIGKILL)
+        except Exception:
+            pass
         _prepare_tree()
         mod = importlib.import_module(modname)
         rec = Recorder(prop, known)
